@@ -356,8 +356,11 @@ PROPS['C19'] = sem_prop('Block exit probes fire when the block or arm falls thro
     'Lean 4 theorem: the lowered program reproduces the monitored trace, in which exit probes fire exactly when the body / arm falls through; after the repair of F13 the placement for `if` is the arm\'s own else/end for arbitrarily nested arms.',
     'Lean 4 proof (simulation by induction on fuel) + differential correspondence and execution in the Lean interpreter')
 PROPS['C20'] = sem_prop('Semantic-after probes fire exactly once after the instruction', ['Orca/Props/C20.lean'],
-    'PARTIAL. Lean 4: full theorem for semantic-after on block / if / else (fall-through and branch to the label). For branches the code\'s flag scheme is modelled; the statement is false of the code in two recorded ways, each decided in the kernel '
-    'on a concrete program and reproduced on the crate by the sem family: F14 (flag never cleared) and F15 (function label). Single annotated branches into a block are decided on instances; the general partial theorem for branches is not proved.',
-    'Lean 4 proof (constructs) + kernel-decided counterexamples (branches) + differential correspondence and execution in the Lean interpreter')
+    'PARTIAL. Lean 4: full theorem for semantic-after on block / if / else (fall-through and branch to the label). For branches the code\'s flag scheme (a flag local per annotated branch, 1 before / 0 after, a chain of checks behind '
+    'the target\'s end, never cleared) is modelled and proved to reproduce the monitored outcome and trace on its scope - annotations on br / br_if, no loop contains the target of an annotated branch, no annotated branch to the '
+    'function label, distinct flag locals untouched by the program and 0 on entry - for every program, nesting and terminating execution in the scope, up to the flag locals (c20_branch_partial, c20_function_partial: simulation with an '
+    'inductive flag invariant). Outside the scope the statement is false of the code in two recorded ways, each decided in the kernel on a concrete program and reproduced on the crate by the sem family: F14 (flag never cleared: '
+    'br_table with two targets, targets in loops) and F15 (function label).',
+    'Lean 4 proof (constructs: simulation; branches: simulation up to flag locals with an inductive invariant, on the stated scope) + kernel-decided counterexamples outside the scope + differential correspondence and execution in the Lean interpreter')
 
 ALL_IDS = ['C%02d' % i for i in range(1, 31)]
